@@ -35,6 +35,8 @@ ENDO_POOL = ['x', 'y', 'z', 'w', 'u', 'v', 'C', 'Y', 'HH__F', 'GOV__T', 'BUS__PR
 EXO_POOL = ['G', 'R', 'Gbar', 'TAX', 'N0']
 FUNCS = {'sqrt': math.sqrt, 'abs': abs, 'max': max, 'min': min, 'float': float}
 NUMERIC = ('ZeroDiv', 'ValueError', 'OverflowError')
+DOCSTRING_STRESS = ['# data from C:\\Users\\brian\\model.txt', '# the """best""" guess of the parameters',
+                    '# written to output\\unittest_output_2.py', '# uses \\N{EN DASH} and \\x in the notes']
 
 
 # ------------------------------------------------------------------------------------------------
@@ -251,6 +253,9 @@ def render(rng, case):
         lines.append(('    ' if rng.random() < 0.2 else '') + ln)
         if rng.random() < 0.1:
             lines.append('')
+    if rng.random() < 0.06:
+        # the block text is quoted in the generated module's docstring (D20d)
+        lines.insert(rng.randint(0, len(lines)), rng.choice(DOCSTRING_STRESS))
     if case['exo'] or rng.random() < 0.3:
         lines.append(rng.choice(['exogenous', 'Exogenous', '# Exogenous Variables']))
         for g, txt in case['exo']:
@@ -569,6 +574,10 @@ def oracle(case, gen, inp):
         if cls == 'NameError' and "'k'" in msg and not an['user_t']:
             fail('generated:NameError-k-undefined',
                  "generated module raised NameError(%s): the parser's default time axis 't = k' needs k" % msg)
+        elif pycls == 'SyntaxError' and an['wf'] and ('\\' in case['text'] or '"""' in case['text']):
+            fail('generated:SyntaxError-block-text-in-docstring',
+                 'generated module does not import: %s(%s); the block text (a comment with a backslash or triple quotes) '
+                 'is pasted into a non-raw docstring' % (pycls, msg))
         elif pycls == 'AttributeError' and an['lag_of_lagged'] and an['wf']:
             fail('generated:AttributeError-lag-of-lagged',
                  'generated module raised AttributeError(%s): a lagged variable is the source of another lag; '
@@ -712,6 +721,8 @@ def emit(gen):
     if blk is None:
         return None
     sl = lambda xs: coq_list([coq_string(x) for x in xs])  # noqa
+    if gen['status'] == 'err' and gen.get('pycls') == 'SyntaxError':
+        return None            # the text of the module is not modelled
     if gen['status'] == 'ok':
         if gen.get('nonfloat'):
             return None
@@ -749,6 +760,10 @@ FIXED = [
     {'kind': 'fixed', 'endo': [['x', 'x*x + 2.0'], ['t', 'LAG_t + 1.0']], 'lags': [['LAG_t', 't']], 'exo': [], 'ics': [],
      'maxtime': 2, 'tol': None, 'reduction': False, 'tstyle': 'endo',
      'text': 'x = x*x + 2.0\nt = LAG_t + 1.0\nLAG_t = t(k-1)\nMaxTime = 2'},
+    # D20d: comments with a backslash / triple quotes end up in the module docstring
+    {'kind': 'fixed', 'endo': [['x', '0.5*x + 1.0']], 'lags': [], 'exo': [], 'ics': [], 'maxtime': 2, 'tol': None,
+     'reduction': False, 'tstyle': 'none',
+     'text': '# data from C:\\Users\\brian\\model.txt\n# the """best""" guess\nx = 0.5*x + 1.0\nMaxTime = 2'},
     # no MaxTime line: main() makes no step
     {'kind': 'fixed', 'endo': [['x', '0.5*x + 1.0']], 'lags': [], 'exo': [], 'ics': [], 'maxtime': None, 'tol': None,
      'reduction': False, 'tstyle': 'none', 'text': 'x = 0.5*x + 1.0'},
@@ -768,7 +783,7 @@ def run(ctx):
     n = ctx.scale(700, 9000)
     cases = [dict(c) for c in FIXED] + [gen_block(ctx.rng) for _ in range(n)]
     coq_cases, metas, seen = [], [], set()
-    stats = {'contract': 0, 'wild': 0, 'malformed': 0, 'fixed': 0, 'rejected_by_parser': 0, 'outside_model_fragment': 0,
+    stats = {'contract': 0, 'wild': 0, 'malformed': 0, 'fixed': 0, 'docstring_stress_comments': 0, 'rejected_by_parser': 0, 'outside_model_fragment': 0,
              'ran_ok': 0, 'run_error': {}, 'user_time_axis': 0, 'default_time_axis': 0, 'with_lags': 0, 'with_ic': 0,
              'with_exogenous': 0, 'with_constants': 0, 'with_decoration': 0, 'reduction': 0, 'no_steps': 0,
              'substituted_back': 0, 'compared_with_inprocess': 0, 'skipped_k0_differs': 0, 'skipped_not_contractive': 0,
@@ -778,6 +793,7 @@ def run(ctx):
         gen, inp, fails, facts = process(case)
         out.failures.extend(fails)
         stats[case['kind']] += 1
+        stats['docstring_stress_comments'] += 1 if ('\\' in case['text'] or '"""' in case['text']) else 0
         if gen['status'] == 'rejected':
             stats['rejected_by_parser'] += 1
             continue
